@@ -127,6 +127,10 @@ def _add_by_tick(sim, m, a):
         kw["sqrt_price_x96"] = int(a["sqrt"])
     if "tick" in a:
         kw["tick"] = int(a["tick"])
+    if "sqrt_tick" in a:  # explicit sqrt price, named by the tick it belongs to (so that a mirrored twin can name its own)
+        from demeter.uniswap.liquitidy_math import get_sqrt_ratio_at_tick
+
+        kw["sqrt_price_x96"] = get_sqrt_ratio_at_tick(int(a["sqrt_tick"]))
     if "trim" in a:
         kw["trim_tick"] = bool(a["trim"])
     lo, hi = int(a["lo"]), int(a["hi"])
